@@ -805,8 +805,13 @@ func (cg *ConsumerGroup) nextGeneration(memberID string) (string, error) {
 		cg.withErrorLogger(func(log Logger) {
 			log.Printf("Failed to join group %s: %v", cg.config.ID, err)
 		})
-		// joinGroup has no member id to return when it fails; the prior one
-		// is still known to the coordinator and is the one to leave with.
+		// joinGroup has no member id to return when the join itself failed;
+		// the prior one is still known to the coordinator and is the one to
+		// leave with. When the coordinator accepted the join and something
+		// failed afterwards (the leader's assignment), it is the new one.
+		if joinedID != "" {
+			memberID = joinedID
+		}
 		return memberID, err
 	}
 	memberID = joinedID
